@@ -206,4 +206,40 @@ theorem consistentB_iff (fs : List (Option Finding)) : consistentB fs = true ↔
               · simp [ha, hb, h2 f hx g hy a b ha hb hab]
               · simp [ha, hb, hab]
 
+/-! ### consistency is inherited by parts, and consistent findings have sort keys -/
+
+theorem consistent_append_left (a b : List (Option Finding)) (h : Consistent (a ++ b)) : Consistent a :=
+  ⟨fun x hx => h.1 x (by simp [hx]), fun f hf g hg => h.2 f (by simp [hf]) g (by simp [hg])⟩
+
+theorem consistent_append_right (a b : List (Option Finding)) (h : Consistent (a ++ b)) : Consistent b :=
+  ⟨fun x hx => h.1 x (by simp [hx]), fun f hf g hg => h.2 f (by simp [hf]) g (by simp [hg])⟩
+
+theorem consistent_keyed (fs : List Finding) (h : Consistent (fs.map some)) : ∀ f ∈ fs, (sortKey f).isSome = true := by
+  intro f hf
+  obtain ⟨g, a, k, hg, ha, hk⟩ := h.1 (some f) (List.mem_map.2 ⟨f, hf, rfl⟩)
+  cases hg
+  simp [sortKey, ha, hk]
+
+/-- whatever `Scan` hands to `sortResults` passed `ValidateAdvisories` (or is empty) -/
+theorem scanFindings_consistent (i : ScanIn) : Consistent ((scanFindings i).1.map some) := by
+  unfold scanFindings
+  simp only []
+  split
+  · simp [Consistent]
+  · next hv => exact (validate_spec _).1 hv
+
+theorem consistent_perm (a b : List (Option Finding)) (hp : a.Perm b) (h : Consistent a) : Consistent b :=
+  ⟨fun x hx => h.1 x (hp.mem_iff.2 hx), fun f hf g hg => h.2 f (hp.mem_iff.2 hf) g (hp.mem_iff.2 hg)⟩
+
+/-- `Run` returns no findings together with an error -/
+theorem run_err_findings (ds : List Detector) (px : PkgMap) (e : RunErr) (h : (run ds px).err = some e) :
+    (run ds px).findings = [] := by
+  unfold run at h ⊢
+  simp only [] at h ⊢
+  split
+  · rfl
+  · split
+    · rfl
+    · next hv => simp [hv] at h; split at h <;> simp_all
+
 end Scalibr.Detector
